@@ -546,6 +546,47 @@ pub fn bounded_div_const_case(ch: &mut Choices) -> execs::Case {
     }
 }
 
+/// `bounded_int::constrain::<T, B>` for every integer type and boundaries of both signs (the
+/// under / over proofs compare against constants derived from B; added after seeded change
+/// C03-r3, which weakened the proof for negative boundaries only).
+pub fn bounded_constrain_case(ch: &mut Choices) -> execs::Case {
+    use num_bigint::BigInt;
+    let one = BigInt::from(1u8);
+    let bits = *ch.pick(&[8u32, 16, 32, 64, 128]);
+    let signed = ch.chance(2, 3);
+    let (min, max): (BigInt, BigInt) = if signed { (-(one.clone() << (bits - 1)), (one.clone() << (bits - 1)) - 1) } else { (BigInt::from(0u8), (one.clone() << bits) - 1) };
+    let tname = format!("{}{bits}", if signed { "i" } else { "u" });
+    let mut bs: Vec<BigInt> = vec![one.clone(), BigInt::from(5u8), BigInt::from(100u8), max.clone(), one.clone() << (bits - 2), (one.clone() << (bits - 2)) + 1];
+    if signed {
+        bs.extend([BigInt::from(0u8), BigInt::from(-1), BigInt::from(-5), BigInt::from(-100), min.clone() + 1, -(one.clone() << (bits - 2)), -(one.clone() << (bits - 2)) - 1]);
+    }
+    let b = bs[ch.below(bs.len())].clone();
+    let source = format!(
+        "#[feature(\"bounded-int-utils\")]\nuse core::internal::bounded_int::{{self, BoundedInt, ConstrainHelper}};\nimpl H of ConstrainHelper<{tname}, {b}> {{\n    type LowT = BoundedInt<{min}, {}>;\n    type HighT = BoundedInt<{b}, {max}>;\n}}\nfn cn(x: {tname}) -> (felt252, felt252) {{\n    match bounded_int::constrain::<{tname}, {b}>(x) {{\n        Ok(l) => (0, l.into()),\n        Err(h) => (1, h.into()),\n    }}\n}}\n",
+        b.clone() - 1
+    );
+    let absb = if b < BigInt::from(0u8) { -b.clone() } else { b.clone() };
+    let cands: Vec<BigInt> = vec![b.clone(), b.clone() - 1, b.clone() + 1, absb.clone(), absb.clone() - 1, -absb.clone(), BigInt::from(0u8), one.clone(), -one.clone(), min.clone(), max.clone(), BigInt::from(3u8), BigInt::from(-6)];
+    let args: Vec<Vec<Arg>> = (0..3)
+        .map(|_| {
+            let a = cands[ch.below(cands.len())].clone();
+            let a = if a > max { max.clone() } else if a < min { min.clone() } else { a };
+            vec![Arg::Value(exec::bigint_to_felt(&a))]
+        })
+        .collect();
+    execs::Case {
+        origin: format!("bounded constrain {tname} at {b}"),
+        source,
+        settings: crate::core::cairo::SETTINGS_2024_07,
+        func: Some("::cn".into()),
+        func_choice: 0,
+        gen_args: Some(args),
+        arg_seeds: vec![],
+        expected: None,
+        generated: false,
+    }
+}
+
 pub struct RunOut {
     pub result: Result<Exec, ExecErr>,
     pub kinds: Vec<&'static str>,
@@ -644,14 +685,18 @@ impl Prop for C03 {
             }
             // Fault choices first (choice starvation).
             let plan: Vec<(u32, u32, u8, u8, u64)> = (0..per_case).map(|_| (ch.next(), ch.next(), ch.below(14) as u8, ch.below(6) as u8, ch.u64())).collect();
-            let case = match ch.weighted(&[2, 3, 5, 1]) {
+            let case = match ch.weighted(&[2, 3, 5, 1, 1]) {
                 0 => range_reduction_case(ch),
                 3 => bounded_div_const_case(ch),
+                4 => bounded_constrain_case(ch),
                 1 => execs::pick_case(ch, &curated, 0, 3),
                 _ => execs::pick_case(ch, &snippets, 3, 2),
             };
             if case.origin.starts_with("bounded division") {
                 cc.stats().count("bounded_division_cases");
+            }
+            if case.origin.starts_with("bounded constrain") {
+                cc.stats().count("bounded_constrain_cases");
             }
             if case.origin.starts_with("range reduction") {
                 cc.stats().count("range_reduction_cases");
